@@ -402,6 +402,7 @@ def finish (cfg : Config) (unknown : Option Any) (d : Any) :
     match get cfg path d with
     | .ok v => .present v
     | .error .unmodelled => .unmodelled
+    | .error .panic => .panic
     | .error .notFound =>
       match unknown with
       | some u => .present u
@@ -690,7 +691,7 @@ theorem key_found (n : String) (vt : GoType) (nl : Bool) (es : List (GoVal × Go
   obtain ⟨e, he, hke⟩ := List.mem_map.mp hk'
   have hent : wfEntries GoType.stringT vt es = true := by
     simp only [Any.wf, GoVal.wf, Bool.and_eq_true] at hwf
-    exact hwf.2
+    exact hwf.2.1
   have hty := (Total.wfEntries_mem hent he)
   rw [List.find?_isSome]
   refine ⟨e, he, ?_⟩
@@ -705,23 +706,23 @@ theorem key_found (n : String) (vt : GoType) (nl : Bool) (es : List (GoVal × Go
     subst h1
     simp only [strKey] at hke
     subst hke
-    simp [fkeyEq, keyEq, unboxKey, keyEqScalar]
+    simp [fkeyEq, keyEq, unboxKey, keyEqScalar, keyEqV]
   | int k nm v =>
     rw [hk1] at h1 hwf1
     simp only [GoVal.typeOf, GoType.stringT, GoType.basic.injEq] at h1
-    simp [GoVal.wf, h1.1, Kind.isInt] at hwf1
+    simp [isNEIfaceKey, GoVal.wf, h1.1, Kind.isInt] at hwf1
   | uint k nm v =>
     rw [hk1] at h1 hwf1
     simp only [GoVal.typeOf, GoType.stringT, GoType.basic.injEq] at h1
-    simp [GoVal.wf, h1.1, Kind.isUint] at hwf1
+    simp [isNEIfaceKey, GoVal.wf, h1.1, Kind.isUint] at hwf1
   | float k nm v =>
     rw [hk1] at h1 hwf1
     simp only [GoVal.typeOf, GoType.stringT, GoType.basic.injEq] at h1
-    simp [GoVal.wf, h1.1] at hwf1
+    simp [isNEIfaceKey, GoVal.wf, h1.1] at hwf1
   | complex k nm =>
     rw [hk1] at h1 hwf1
     simp only [GoVal.typeOf, GoType.stringT, GoType.basic.injEq] at h1
-    simp [GoVal.wf, h1.1] at hwf1
+    simp [isNEIfaceKey, GoVal.wf, h1.1] at hwf1
   | bool nm b => rw [hk1] at h1; simp [GoVal.typeOf, GoType.stringT] at h1
   | ptr el v => rw [hk1] at h1; simp [GoVal.typeOf, GoType.stringT] at h1
   | slice nm el nl xs => rw [hk1] at h1; simp [GoVal.typeOf, GoType.stringT] at h1
@@ -811,7 +812,6 @@ theorem getMap_size {part : GoString} {kt : GoType} {es : List (GoVal × GoVal)}
     (hg : getMap part kt es = .ok r) : rvSize r ≤ sizeEntries es := by
   unfold getMap at hg
   split at hg
-  · cases hg
   · cases hg
   · split at hg
     · rename_i k v hf
